@@ -654,6 +654,59 @@ func (w *world) crowd(n, wv int) string {
 
 // exec interprets one op line against the real code; it returns the op line
 // to record (the `adv` op gets its `order=` annotation) and the observation.
+// restartCase is the composite op `restart a= b= w= off=` (first op of a case): `a` requests held by the peer, one
+// more whose completion callback PANICS under handleResponse, the clock moved by `off` ms (so the two expiry timers
+// never fire at the same instant), the reply to the panicking one (-> mailbox escalation, the supervisor restarts the
+// actor, the producer builds a fresh Service), `b` requests issued by the new incarnation, the peer's reply to the OLD
+// request 0 (id 1), +31 s.  Observation: the sub-observations joined by '|' (blanks -> ';', callbacks of one
+// sub-step sorted by tag).  Model: Model/ServiceLife.lean (`LOp.crash`, orphans) through the driver.
+func (w *world) restartCase(c *caseCtx, a, b, wv, off int) string {
+	if c.nextTag != 0 || c.svc != c.svc0 || a < 1 || a > 6 || b < 0 || b > 6 || off < 1 || off > 999 {
+		return "bad-op"
+	}
+	var parts []string
+	add := func(o string) {
+		ws := strings.Split(o, " ")
+		for i, f := range ws {
+			if strings.HasPrefix(f, "cb=") && len(f) > 3 {
+				es := strings.Split(f[3:], ",")
+				sort.SliceStable(es, func(x, y int) bool {
+					tx, _ := strconv.Atoi(strings.SplitN(es[x], ":", 2)[0])
+					ty, _ := strconv.Atoi(strings.SplitN(es[y], ":", 2)[0])
+					return tx < ty
+				})
+				ws[i] = "cb=" + strings.Join(es, ",")
+			}
+		}
+		parts = append(parts, strings.Join(ws, ";"))
+	}
+	sub := func(op string) { _, o := w.exec(op); add(o) }
+	for i := 0; i < a; i++ {
+		sub("req s=R")
+	}
+	c.onSvc(func() {
+		c.mu.Lock()
+		k := c.nextTag
+		c.nextTag++
+		c.kind[k] = 'R'
+		c.t0[k] = c.now()
+		c.iss = append(c.iss, fmt.Sprintf("%d:R@%d", k, c.now()))
+		c.mu.Unlock()
+		c.svc.RequestEx(w.peerPid, "a.b", &messages.TestHello{I: int32(k)}, func(err error, msg interface{}) {
+			panic("c01: user callback panics under handleResponse")
+		})
+	})
+	add(c.observe("ok"))
+	sub(fmt.Sprintf("adv dt=%d", off))
+	sub(fmt.Sprintf("deliver k=%d kind=ok w=1", a))
+	for i := 0; i < b; i++ {
+		sub("req s=R")
+	}
+	sub(fmt.Sprintf("deliver k=0 kind=ok w=%d", wv))
+	sub("adv dt=31000")
+	return "ok r=" + strings.Join(parts, "|")
+}
+
 func (w *world) exec(op string) (string, string) {
 	ws := hx.Words(op)
 	if len(ws) == 0 {
@@ -673,6 +726,9 @@ func (w *world) exec(op string) (string, string) {
 	c := w.cur
 	if c == nil {
 		return op, "bad-op"
+	}
+	if ws[0] == "restart" {
+		return op, w.restartCase(c, hx.KVInt(ws, "a"), hx.KVInt(ws, "b"), hx.KVInt(ws, "w"), hx.KVInt(ws, "off"))
 	}
 	switch ws[0] {
 	case "req":
